@@ -53,7 +53,11 @@ def force_children(rng, w, o):
 def trouble(rng, w, o, kind):
     """scripted trouble outside the tests' own outcomes"""
     if kind == 'import':
-        w['import'] = 'raise'
+        # the test module cannot be imported (whatever it raises)
+        w['import'] = rng.choice([
+            'raise', {'raise': 'ValueError'}, {'raise': 'AttributeError'},
+            {'raise': 'SystemExit', 'code': 0}, {'raise': 'SystemExit', 'code': None},
+            {'raise': 'SystemExit', 'code': 3}, {'raise': 'NotImplementedError'}])
     elif kind == 'spawn_fail':
         force_children(rng, w, o)
         w.setdefault('env', {})['spawn_fail'] = ['*']
